@@ -709,6 +709,7 @@ class MeanFieldTempoBackend():
         self._field = initial_field
         self._state_list = initial_state_list
         self._step = None
+        self._pending_next_state_list = None
         self._propagators_list = propagators_list
         self._degeneracy_map_list = degeneracy_maps_list
         # List of BaseTempoBackends use to calculate each system dynamics
@@ -749,23 +750,30 @@ class MeanFieldTempoBackend():
         next_step = current_step + 1
         current_state_list = deepcopy(self._state_list)
         current_field = self._field
-        current_field_derivative = self._compute_field_derivative(
-            current_step, current_state_list, current_field)
-        # N.B. propagators use current_field & current_field_derivative
-        # this is how field dependence enters in each system dynamics
-        prop_tuple_list = [
-            propagators(current_step, current_field, current_field_derivative) \
-                for propagators, state in \
-                    zip(self._propagators_list, current_state_list)]
-        # Use tempo tensor network to compute each system state
-        next_state_list = [
-            backend.compute_system_step(next_step, *prop_tuple) \
-                for backend, prop_tuple in \
-                    zip(self._backend_list, prop_tuple_list)]
+        if self._pending_next_state_list is None:
+            current_field_derivative = self._compute_field_derivative(
+                current_step, current_state_list, current_field)
+            # N.B. propagators use current_field & current_field_derivative
+            # this is how field dependence enters in each system dynamics
+            prop_tuple_list = [
+                propagators(current_step, current_field,
+                            current_field_derivative) \
+                    for propagators, state in \
+                        zip(self._propagators_list, current_state_list)]
+            # Use tempo tensor network to compute each system state
+            self._pending_next_state_list = [
+                backend.compute_system_step(next_step, *prop_tuple) \
+                    for backend, prop_tuple in \
+                        zip(self._backend_list, prop_tuple_list)]
+        # The system networks have been advanced at this point. Should the
+        # field update below fail, a repeated call must not advance them a
+        # second time, so the computed states are kept until it succeeds.
+        next_state_list = self._pending_next_state_list
         # Use field evolution function to compute next field
         next_field = self._compute_field(current_step,
                                          current_state_list, current_field,
                                          next_state_list)
+        self._pending_next_state_list = None
         self._state_list = next_state_list
         self._field = next_field
         self._step = next_step
